@@ -578,9 +578,1342 @@ pub fn main_c10(args: &Args) -> std::io::Result<()> {
             }
         }
     }
+    // ---- public methods of the primitives that nothing above calls
+    public_method_audit(args, &mut cx, &mut rng);
     drop(cx);
     w.finish()?;
     st.write(&args.out.join("c10_stats.json"))
+}
+
+// ------------------------------------------------------- C10: audit of the remaining public methods
+
+type V2 = lyon_geom::Vector<f64>;
+
+/// what one audited group found: violated expectations (what, input, known-finding class) and counters
+struct Au {
+    bad: Vec<(String, String, Option<&'static str>)>,
+    cnt: Vec<&'static str>,
+}
+impl Au {
+    fn bad(&mut self, what: &str, input: String) {
+        self.bad.push((what.to_string(), input, None));
+    }
+    fn known(&mut self, what: &str, input: String, class: &'static str) {
+        self.bad.push((what.to_string(), input, Some(class)));
+    }
+    fn inc(&mut self, k: &'static str) {
+        self.cnt.push(k);
+    }
+}
+
+/// runs one group of checks on one input: counts `audit_<method>` for every method named, turns a panic into
+/// a failure, and lists at most 12 failures per distinct expectation (the rest are only counted in
+/// `audit_repeated_failures_not_listed`)
+fn au_run(cx: &mut Ctx, seen: &mut std::collections::BTreeMap<String, u32>, methods: &[&str], label: &str, f: impl FnOnce(&mut Au)) {
+    let mut au = Au { bad: Vec::new(), cnt: Vec::new() };
+    let ok = catch(std::panic::AssertUnwindSafe(|| f(&mut au))).is_some();
+    for m in methods {
+        cx.st.inc(&format!("audit_{}", m));
+    }
+    cx.st.inc("evaluations");
+    for k in au.cnt.drain(..) {
+        cx.st.inc(k);
+    }
+    if !ok {
+        au.bad.push((format!("{} panicked", methods.join(" / ")), label.to_string(), None));
+    }
+    for (what, input, class) in au.bad.drain(..) {
+        // C10 states what splitting, sub-ranges, flipping, elevation, transformation, derivatives and lengths must do;
+        // clipping to a box, dragging, the linearity predicates and the unused flattening_step are public methods of the
+        // same types but are not covered by that statement: what the audit sees there is recorded as an observation
+        // (DESIGN.md 10.10), not raised
+        const OUTSIDE: [&str; 8] = [
+            // debug builds: fat_line of a curve whose end points coincide trips the debug assertion of LineEquation::new
+            "quadratic_bounding_triangle / quadratic_fat_line / quadratic_flattening_step panicked",
+            "cubic_baseline / cubic_is_linear / cubic_fat_line panicked",
+            "LineSegment::clipped",
+            "QuadraticBezierSegment::flattening_step",
+            "CubicBezierSegment::drag",
+            "QuadraticBezierSegment::is_linear",
+            "CubicBezierSegment::is_linear",
+            "QuadraticBezierSegment::drag",
+        ];
+        if OUTSIDE.iter().any(|p| what.starts_with(p)) {
+            cx.st.inc(&format!("observed outside the property's statement: {}", what));
+            let _ = input;
+            continue;
+        }
+        // (known findings: 4 examples each, so that the 15 kept per class show every kind)
+        let k = seen.entry(format!("{}{}", what, class.unwrap_or(""))).or_insert(0);
+        *k += 1;
+        if *k > if class.is_some() { 4 } else { 12 } {
+            cx.st.inc("audit_repeated_failures_not_listed");
+            continue;
+        }
+        match class {
+            None => cx.fail(&what, input),
+            Some(c) => cx.st.fail(jobj(&[("what", jstr(&what)), ("input", jstr(&input)), ("class", jstr(c))])),
+        }
+    }
+}
+
+fn crs(a: V2, b: V2) -> f64 {
+    a.x * b.y - a.y * b.x
+}
+fn pscale(ps: &[P]) -> f64 {
+    1.0 + ps.iter().map(|p| p.x.abs().max(p.y.abs())).fold(0.0, f64::max)
+}
+/// distance from p to the closed segment a b
+fn dist_seg(p: P, a: P, b: P) -> f64 {
+    let ab = b - a;
+    let l2 = ab.square_length();
+    if l2 == 0.0 {
+        return (p - a).length();
+    }
+    let t = ((p - a).dot(ab) / l2).max(0.0).min(1.0);
+    (p - (a + ab * t)).length()
+}
+/// distance from p to the infinite line a b (a != b)
+fn dist_line(p: P, a: P, b: P) -> f64 {
+    crs(b - a, p - a).abs() / (b - a).length()
+}
+fn finite_pts(ps: &[P]) -> bool {
+    ps.iter().all(|p| p.x.is_finite() && p.y.is_finite())
+}
+
+/// exact rational n / d, d > 0
+#[derive(Clone, Copy, Debug)]
+struct Rq {
+    n: i128,
+    d: i128,
+}
+fn rq(n: i128, d: i128) -> Rq {
+    if d < 0 {
+        Rq { n: -n, d: -d }
+    } else {
+        Rq { n, d }
+    }
+}
+fn rq_lt(a: Rq, b: Rq) -> bool {
+    a.n * b.d < b.n * a.d
+}
+fn rq_f(a: Rq) -> f64 {
+    a.n as f64 / a.d as f64
+}
+/// the parameter interval of the part of the integer segment f -> t inside the closed ranges (Liang-Barsky,
+/// exact); None when no point of the segment is inside
+fn clip_interval(f: (i64, i64), t: (i64, i64), xr: Option<(i64, i64)>, yr: Option<(i64, i64)>) -> Option<(Rq, Rq)> {
+    let (mut t0, mut t1) = (rq(0, 1), rq(1, 1));
+    for (p0, p1, r) in [(f.0, t.0, xr), (f.1, t.1, yr)] {
+        if let Some((lo, hi)) = r {
+            let d = (p1 - p0) as i128;
+            if d == 0 {
+                if p0 < lo || p0 > hi {
+                    return None;
+                }
+                continue;
+            }
+            let (mut a, mut b) = (rq((lo - p0) as i128, d), rq((hi - p0) as i128, d));
+            if rq_lt(b, a) {
+                std::mem::swap(&mut a, &mut b);
+            }
+            if rq_lt(t0, a) {
+                t0 = a;
+            }
+            if rq_lt(b, t1) {
+                t1 = b;
+            }
+        }
+    }
+    if rq_lt(t1, t0) {
+        None
+    } else {
+        Some((t0, t1))
+    }
+}
+/// the same in floating point for general segments: interval and the smallest margin of the decisions taken
+fn clip_interval_f(f: P, t: P, xr: Option<(f64, f64)>, yr: Option<(f64, f64)>) -> (Option<(f64, f64)>, f64) {
+    let (mut t0, mut t1) = (0.0f64, 1.0f64);
+    let mut margin = f64::MAX;
+    for (p0, p1, r) in [(f.x, t.x, xr), (f.y, t.y, yr)] {
+        if let Some((lo, hi)) = r {
+            let d = p1 - p0;
+            if d == 0.0 {
+                margin = margin.min((p0 - lo).abs()).min((p0 - hi).abs());
+                if p0 < lo || p0 > hi {
+                    return (None, margin);
+                }
+                continue;
+            }
+            let (mut a, mut b) = ((lo - p0) / d, (hi - p0) / d);
+            if b < a {
+                std::mem::swap(&mut a, &mut b);
+            }
+            t0 = t0.max(a);
+            t1 = t1.min(b);
+        }
+    }
+    margin = margin.min((t1 - t0).abs());
+    if t1 < t0 {
+        (None, margin)
+    } else {
+        (Some((t0, t1)), margin)
+    }
+}
+
+/// line segments: lattice (general, horizontal, vertical, zero length), dyadic, general position
+fn au_line(r: &mut Rng) -> LineSegment<f64> {
+    match r.below(9) {
+        0 => {
+            let (a, b) = (ipt(r, 8), ipt(r, 8));
+            LineSegment { from: a, to: point(b.x, a.y) }
+        }
+        1 => {
+            let (a, b) = (ipt(r, 8), ipt(r, 8));
+            LineSegment { from: a, to: point(a.x, b.y) }
+        }
+        2 => {
+            let a = ipt(r, 8);
+            LineSegment { from: a, to: a }
+        }
+        3 => {
+            let (a, b) = (ipt(r, 64), ipt(r, 64));
+            LineSegment { from: point(a.x / 8.0, a.y / 8.0), to: point(b.x / 8.0, b.y / 8.0) }
+        }
+        4 | 5 => {
+            let g = |r: &mut Rng| point((r.unit_f64() - 0.5) * 40.0, (r.unit_f64() - 0.5) * 40.0);
+            LineSegment { from: g(r), to: g(r) }
+        }
+        _ => LineSegment { from: ipt(r, 8), to: ipt(r, 8) },
+    }
+}
+fn au_point(r: &mut Rng) -> P {
+    match r.below(3) {
+        0 => point((r.unit_f64() - 0.5) * 40.0, (r.unit_f64() - 0.5) * 40.0),
+        1 => {
+            let a = ipt(r, 64);
+            point(a.x / 8.0, a.y / 8.0)
+        }
+        _ => ipt(r, 10),
+    }
+}
+fn is_lattice(ps: &[P]) -> bool {
+    ps.iter().all(|p| p.x == p.x.trunc() && p.y == p.y.trunc() && p.x.abs() < 1e6 && p.y.abs() < 1e6)
+}
+/// quadratics: lattice with the degeneracies of `ctrl_points`, the same on the 1/8 grid, collinear with the control
+/// point beyond an end, general position
+fn au_quad(r: &mut Rng) -> QuadraticBezierSegment<f64> {
+    match r.below(6) {
+        0 | 1 => {
+            let g = |r: &mut Rng| point((r.unit_f64() - 0.5) * 20.0, (r.unit_f64() - 0.5) * 20.0);
+            QuadraticBezierSegment { from: g(r), ctrl: g(r), to: g(r) }
+        }
+        2 => {
+            let p = ctrl_points(r, 3);
+            QuadraticBezierSegment { from: p[0] / 8.0, ctrl: p[1] / 8.0, to: p[2] / 8.0 }
+        }
+        3 if r.chance(1, 3) => {
+            // collinear, the control point anywhere on the line (between the ends or beyond one)
+            let (a, d) = (ipt(r, 4), ipt(r, 2));
+            let k = [r.range(-3, 3) as f64, r.range(-6, 6) as f64, r.range(-3, 3) as f64];
+            QuadraticBezierSegment { from: a + d.to_vector() * k[0], ctrl: a + d.to_vector() * k[1], to: a + d.to_vector() * k[2] }
+        }
+        _ => {
+            let p = ctrl_points(r, 3);
+            QuadraticBezierSegment { from: p[0], ctrl: p[1], to: p[2] }
+        }
+    }
+}
+fn au_cubic(r: &mut Rng) -> CubicBezierSegment<f64> {
+    match r.below(8) {
+        0 | 1 => {
+            let g = |r: &mut Rng| point((r.unit_f64() - 0.5) * 20.0, (r.unit_f64() - 0.5) * 20.0);
+            CubicBezierSegment { from: g(r), ctrl1: g(r), ctrl2: g(r), to: g(r) }
+        }
+        2 => {
+            let p = ctrl_points(r, 4);
+            CubicBezierSegment { from: p[0] / 8.0, ctrl1: p[1] / 8.0, ctrl2: p[2] / 8.0, to: p[3] / 8.0 }
+        }
+        3 => {
+            // coincident inner control points / control point on the far end
+            let p = ctrl_points(r, 4);
+            let mut c = CubicBezierSegment { from: p[0], ctrl1: p[1], ctrl2: p[2], to: p[3] };
+            match r.below(3) {
+                0 => c.ctrl2 = c.ctrl1,
+                1 => c.ctrl2 = c.to,
+                _ => {
+                    c.ctrl1 = c.from;
+                    c.ctrl2 = c.to;
+                }
+            }
+            c
+        }
+        4 if r.chance(1, 2) => {
+            let (a, d) = (ipt(r, 4), ipt(r, 2));
+            let k = [r.range(-3, 3) as f64, r.range(-6, 6) as f64, r.range(-6, 6) as f64, r.range(-3, 3) as f64];
+            CubicBezierSegment { from: a + d.to_vector() * k[0], ctrl1: a + d.to_vector() * k[1], ctrl2: a + d.to_vector() * k[2], to: a + d.to_vector() * k[3] }
+        }
+        _ => {
+            let p = ctrl_points(r, 4);
+            CubicBezierSegment { from: p[0], ctrl1: p[1], ctrl2: p[2], to: p[3] }
+        }
+    }
+}
+fn au_tol(r: &mut Rng) -> f64 {
+    match r.below(3) {
+        0 => 0.001 + r.unit_f64() * 3.0,
+        _ => *r.pick(&[0.0, 0.01, 0.1, 0.25, 0.5, 1.0, 2.0, 5.0]),
+    }
+}
+
+fn public_method_audit(args: &Args, cx: &mut Ctx, rng: &mut Rng) {
+    use lyon_geom::{vector, Arc, Box2D, Line, Triangle};
+    let n = if args.thorough() { 15000 } else { 2000 };
+    let mut seen = std::collections::BTreeMap::<String, u32>::new();
+    let seen = &mut seen;
+
+    // ================================================================ LineSegment
+    // ---- mid_point, translate, set_length
+    for _ in 0..n {
+        let r = &mut *rng;
+        let l = au_line(r);
+        let exact = l.from.x * 8.0 == (l.from.x * 8.0).trunc() && l.to.x * 8.0 == (l.to.x * 8.0).trunc() && l.from.y * 8.0 == (l.from.y * 8.0).trunc() && l.to.y * 8.0 == (l.to.y * 8.0).trunc();
+        let by: V2 = if exact { vector(r.range(-40, 40) as f64 / 4.0, r.range(-40, 40) as f64 / 4.0) } else { vector((r.unit_f64() - 0.5) * 30.0, (r.unit_f64() - 0.5) * 30.0) };
+        let t = dy(r);
+        let new_len = match r.below(4) {
+            0 => *r.pick(&[0.0, 0.5, 1.0, 3.0, 10.0]),
+            _ => r.unit_f64() * 20.0,
+        };
+        let label = format!("{:?} by {:?} t={} new length {}", l, by, t, new_len);
+        cx.st.note_case(&label, l.from != l.to);
+        au_run(cx, seen, &["mid_point", "translate", "set_length"], &label, |au| {
+            let sc = pscale(&[l.from, l.to]) + by.x.abs().max(by.y.abs());
+            let mut lm = l;
+            let m = lm.mid_point();
+            let want = point((l.from.x + l.to.x) / 2.0, (l.from.y + l.to.y) / 2.0);
+            if lm != l {
+                au.bad("LineSegment::mid_point changes the segment", label.clone());
+            }
+            if (exact && (m != l.sample(0.5) || m != want)) || (m - l.sample(0.5)).length() > 1e-14 * sc || (m - want).length() > 1e-14 * sc {
+                au.bad("LineSegment::mid_point is not sample(0.5)", format!("{} -> {:?}", label, m));
+            }
+            let mut lm = l;
+            let tr = lm.translate(by);
+            if lm != l {
+                au.bad("LineSegment::translate changes the segment it is called on", label.clone());
+            }
+            let (got, want) = (tr.sample(t), l.sample(t) + by);
+            if (exact && got != want) || (got - want).length() > 1e-13 * sc || tr.from != l.from + by || tr.to != l.to + by {
+                au.bad("LineSegment::translate does not commute with sampling", format!("{} -> {:?}", label, tr));
+            }
+            let mut s = l;
+            s.set_length(new_len);
+            if s.from != l.from {
+                au.bad("LineSegment::set_length moves the start point", format!("{} -> {:?}", label, s));
+            }
+            if l.from == l.to {
+                au.inc(if finite_pts(&[s.to]) { "audit_set_length_zero_length_input_finite" } else { "audit_set_length_zero_length_input_not_finite" });
+            } else {
+                let (v0, v1) = (l.to - l.from, s.to - s.from);
+                if !finite_pts(&[s.to]) || (s.length() - new_len).abs() > 1e-12 * (sc + new_len) {
+                    au.bad("LineSegment::set_length: the new length is not the requested one", format!("{} -> {:?} of length {}", label, s, s.length()));
+                } else if crs(v0, v1).abs() > 1e-12 * sc * (1.0 + v0.length()) * (1.0 + new_len) || (new_len > 1e-9 && v0.dot(v1) <= 0.0) {
+                    au.bad("LineSegment::set_length changes the direction", format!("{} -> {:?}", label, s));
+                }
+            }
+        });
+    }
+    // ---- solve_t_for_x / y, solve_y_for_x / x_for_y, split_at_x, and the predicates of the line's equation
+    for _ in 0..n {
+        let r = &mut *rng;
+        let l = au_line(r);
+        let u = dy(r);
+        // the abscissa / ordinate asked for: of a point of the segment, of its line beyond the ends, or anything
+        let (qx, qy) = match r.below(4) {
+            0 => (l.from.x + (l.to.x - l.from.x) * r.range(-8, 24) as f64 / 16.0, l.from.y + (l.to.y - l.from.y) * r.range(-8, 24) as f64 / 16.0),
+            1 => ((r.unit_f64() - 0.5) * 50.0, (r.unit_f64() - 0.5) * 50.0),
+            _ => {
+                let k = dy(r);
+                (l.x(k), l.y(k))
+            }
+        };
+        let label = format!("{:?} x={} y={} u={}", l, qx, qy, u);
+        cx.st.note_case(&label, l.from != l.to);
+        au_run(cx, seen, &["solve_t_for_x", "solve_t_for_y", "solve_y_for_x", "solve_x_for_y", "split_at_x", "is_horizontal", "is_vertical"], &label, |au| {
+            let sc = pscale(&[l.from, l.to]) + qx.abs().max(qy.abs());
+            let d = l.to - l.from;
+            // x
+            let t = l.solve_t_for_x(qx);
+            let y = l.solve_y_for_x(qx);
+            if d.x != 0.0 {
+                let tol = 1e-12 * sc * (1.0 + t.abs());
+                if !t.is_finite() || (l.x(t) - qx).abs() > tol {
+                    au.bad("LineSegment::solve_t_for_x: x(t) is not the abscissa asked for", format!("{} -> t={} x(t)={}", label, t, l.x(t)));
+                }
+                // (qx, y) is on the line of the segment
+                if !y.is_finite() || crs(d, point(qx, y) - l.from).abs() > 1e-11 * sc * (1.0 + t.abs()) * (d.x.abs() + d.y.abs()) {
+                    au.bad("LineSegment::solve_y_for_x: the point (x, y) is not on the line of the segment", format!("{} -> y={}", label, y));
+                }
+                if (y - l.sample(t).y).abs() > tol {
+                    au.bad("LineSegment::solve_y_for_x differs from sampling at solve_t_for_x", format!("{} -> y={}", label, y));
+                }
+                let (lo, hi) = (l.from.x.min(l.to.x), l.from.x.max(l.to.x));
+                if qx >= lo && qx <= hi {
+                    let (a, b) = l.split_at_x(qx);
+                    let ti = (qx - l.from.x) / d.x;
+                    let e = 1e-12 * sc;
+                    if a.from != l.from || b.to != l.to || a.to != b.from || (a.to.x - qx).abs() > e {
+                        au.bad("LineSegment::split_at_x: the pieces do not start / end at the ends of the segment and meet at the abscissa", format!("{} -> {:?} {:?}", label, a, b));
+                    } else if (a.sample(u) - l.sample(ti * u)).length() > e || (b.sample(u) - l.sample(ti + (1.0 - ti) * u)).length() > e {
+                        au.bad("LineSegment::split_at_x: the pieces do not retrace the segment", format!("{} -> {:?} {:?}", label, a, b));
+                    }
+                }
+            } else {
+                // vertical (or a point): the documentation does not say; nothing must blow up
+                au.inc("audit_solve_t_for_x_vertical_segment");
+                if t == 0.0 {
+                    au.inc("audit_solve_t_for_x_vertical_segment_returns_0");
+                }
+                let (a, b) = l.split_at_x(qx);
+                if !t.is_finite() || !y.is_finite() || !finite_pts(&[a.from, a.to, b.from, b.to]) {
+                    au.bad("LineSegment::solve_t_for_x / solve_y_for_x / split_at_x of a vertical segment is not finite", format!("{} -> t={} y={}", label, t, y));
+                }
+            }
+            // y
+            let t = l.solve_t_for_y(qy);
+            let x = l.solve_x_for_y(qy);
+            if d.y != 0.0 {
+                let tol = 1e-12 * sc * (1.0 + t.abs());
+                if !t.is_finite() || (l.y(t) - qy).abs() > tol {
+                    au.bad("LineSegment::solve_t_for_y: y(t) is not the ordinate asked for", format!("{} -> t={} y(t)={}", label, t, l.y(t)));
+                }
+                if !x.is_finite() || crs(d, point(x, qy) - l.from).abs() > 1e-11 * sc * (1.0 + t.abs()) * (d.x.abs() + d.y.abs()) {
+                    au.bad("LineSegment::solve_x_for_y: the point (x, y) is not on the line of the segment", format!("{} -> x={}", label, x));
+                }
+            } else {
+                au.inc("audit_solve_t_for_y_horizontal_segment");
+                if !t.is_finite() || !x.is_finite() {
+                    au.bad("LineSegment::solve_t_for_y / solve_x_for_y of a horizontal segment is not finite", format!("{} -> t={} x={}", label, t, x));
+                }
+            }
+            if l.from != l.to {
+                let eq = l.to_line().equation();
+                if eq.is_horizontal() != (d.y == 0.0) || eq.is_vertical() != (d.x == 0.0) {
+                    au.bad("LineEquation::is_horizontal / is_vertical disagree with the end points of the segment", format!("{} -> {:?}", label, eq));
+                }
+            }
+        });
+    }
+    // ---- clipped_x, clipped_y, clipped
+    for it in 0..n {
+        let r = &mut *rng;
+        // lattice (unit 1) or 1/8 grid (unit 8) with exact reasoning; every fourth case in general position
+        let general = it % 4 == 3;
+        let unit = if it % 2 == 0 { 1i64 } else { 8 };
+        let m = 8 * unit;
+        let mut fi = (r.range(-m, m), r.range(-m, m));
+        let mut ti = (r.range(-m, m), r.range(-m, m));
+        match r.below(8) {
+            0 => ti = fi,
+            1 => ti.0 = fi.0,
+            2 => ti.1 = fi.1,
+            _ => {}
+        }
+        let rg = |r: &mut Rng| {
+            let (a, b) = (r.range(-6 * unit, 6 * unit), r.range(-6 * unit, 6 * unit));
+            (a.min(b), a.max(b))
+        };
+        let (mut xr, mut yr) = (rg(r), rg(r));
+        match r.below(12) {
+            0 | 1 => {
+                // ranges that end exactly at an end point of the segment
+                xr.0 = fi.0.min(xr.1);
+                yr.1 = ti.1.max(yr.0);
+            }
+            2 => {
+                // a horizontal segment along the lower or upper side of the box
+                ti.1 = fi.1;
+                if r.chance(1, 2) {
+                    yr = (fi.1, fi.1.max(yr.1));
+                } else {
+                    yr = (fi.1.min(yr.0), fi.1);
+                }
+            }
+            3 => {
+                // a vertical segment along the left or right side
+                ti.0 = fi.0;
+                if r.chance(1, 2) {
+                    xr = (fi.0, fi.0.max(xr.1));
+                } else {
+                    xr = (fi.0.min(xr.0), fi.0);
+                }
+            }
+            _ => {}
+        }
+        let mut jit = |v: i64| if general { v as f64 / unit as f64 + (r.unit_f64() - 0.5) * 0.9 } else { v as f64 / unit as f64 };
+        let l = LineSegment { from: point(jit(fi.0), jit(fi.1)), to: point(jit(ti.0), jit(ti.1)) };
+        if general {
+            fi = (0, 0);
+            ti = (0, 0);
+        }
+        let xrf = (jit(xr.0), jit(xr.1));
+        let yrf = (jit(yr.0), jit(yr.1));
+        let (xrf, yrf) = ((xrf.0.min(xrf.1), xrf.0.max(xrf.1)), (yrf.0.min(yrf.1), yrf.0.max(yrf.1)));
+        let label = format!("{:?} x range {:?} y range {:?}", l, xrf, yrf);
+        cx.st.note_case(&label, l.from != l.to);
+        au_run(cx, seen, &["clipped_x", "clipped_y", "clipped"], &label, |au| {
+            let sc = pscale(&[l.from, l.to]);
+            for which in 0..3 {
+                let name = ["clipped_x", "clipped_y", "clipped"][which];
+                let (ux, uy) = (which != 1, which != 0);
+                let got = match which {
+                    0 => l.clipped_x(xrf.0..xrf.1),
+                    1 => l.clipped_y(yrf.0..yrf.1),
+                    _ => l.clipped(&Box2D { min: point(xrf.0, yrf.0), max: point(xrf.1, yrf.1) }),
+                };
+                // the part inside, as a parameter interval
+                let (want, sure): (Option<(f64, f64)>, bool) = if general {
+                    let (iv, margin) = clip_interval_f(l.from, l.to, if ux { Some(xrf) } else { None }, if uy { Some(yrf) } else { None });
+                    (iv, margin > 1e-9)
+                } else {
+                    let iv = clip_interval(fi, ti, if ux { Some(xr) } else { None }, if uy { Some(yr) } else { None });
+                    (iv.map(|(a, b)| (rq_f(a), rq_f(b))), true)
+                };
+                if !sure {
+                    au.inc("audit_clipped_undecided_in_floating_point");
+                    continue;
+                }
+                let at = |t: f64| l.from + (l.to - l.from) * t;
+                let e = 1e-11 * sc;
+                match (want, got) {
+                    (None, None) => au.inc("audit_clipped_outside"),
+                    (None, Some(s)) => au.bad(&format!("LineSegment::{} returns a segment although no point of the segment is inside", name), format!("{} -> {:?}", label, s)),
+                    (Some((t0, t1)), None) => {
+                        if t0 == t1 && l.from != l.to {
+                            au.inc("audit_clipped_single_point_none");
+                        } else {
+                            au.bad(&format!("LineSegment::{} returns None although a part of the segment is inside", name), format!("{} (inside for t in {}..{})", label, t0, t1));
+                        }
+                    }
+                    (Some((t0, t1)), Some(s)) => {
+                        if t0 == t1 && l.from != l.to {
+                            au.inc("audit_clipped_single_point_some");
+                        } else {
+                            au.inc("audit_clipped_part_inside");
+                        }
+                        if !finite_pts(&[s.from, s.to]) || (s.from - at(t0)).length() > e || (s.to - at(t1)).length() > e {
+                            au.bad(&format!("LineSegment::{}: the result is not the part of the segment inside", name), format!("{} -> {:?}, expected {:?} -> {:?}", label, s, at(t0), at(t1)));
+                        } else {
+                            // and by sampling: every point of the result is inside and on the segment
+                            for i in 0..=8 {
+                                let p = s.sample(i as f64 / 8.0);
+                                let inx = !ux || (p.x >= xrf.0 - e && p.x <= xrf.1 + e);
+                                let iny = !uy || (p.y >= yrf.0 - e && p.y <= yrf.1 + e);
+                                if !inx || !iny || dist_seg(p, l.from, l.to) > e {
+                                    au.bad(&format!("LineSegment::{}: a point of the result is outside the range or off the segment", name), format!("{} -> {:?}", label, s));
+                                    break;
+                                }
+                            }
+                        }
+                    }
+                }
+            }
+        });
+    }
+    // ---- closest_point, distance_to_point, square_distance_to_point
+    for _ in 0..n {
+        let r = &mut *rng;
+        let l = au_line(r);
+        let p = match r.below(5) {
+            0 => l.sample(dy(r)),
+            1 => l.sample(r.range(-16, 32) as f64 / 16.0),
+            _ => au_point(r),
+        };
+        let label = format!("{:?} point {:?}", l, p);
+        cx.st.note_case(&label, l.from != l.to);
+        au_run(cx, seen, &["closest_point", "distance_to_point", "square_distance_to_point"], &label, |au| {
+            let sc = pscale(&[l.from, l.to, p]);
+            let e = 1e-12 * sc;
+            let cp = l.closest_point(p);
+            if !finite_pts(&[cp]) || dist_seg(cp, l.from, l.to) > e {
+                au.bad("LineSegment::closest_point is not a point of the segment", format!("{} -> {:?}", label, cp));
+                return;
+            }
+            let d = (cp - p).length();
+            for i in 0..=256 {
+                let s = l.sample(i as f64 / 256.0);
+                if (s - p).length() < d - e {
+                    au.bad("LineSegment::closest_point: a sampled point of the segment is closer", format!("{} -> {:?} at distance {}, sample {:?} at {}", label, cp, d, s, (s - p).length()));
+                    break;
+                }
+            }
+            let (dd, sq) = (l.distance_to_point(p), l.square_distance_to_point(p));
+            if (dd - d).abs() > e || (sq - d * d).abs() > e * (1.0 + d) {
+                au.bad("LineSegment::distance_to_point / square_distance_to_point differ from the distance to closest_point", format!("{} -> {} {} vs {}", label, dd, sq, d));
+            }
+            if is_lattice(&[l.from, l.to, p]) {
+                // exact squared distance by cases
+                let (v, w) = (l.to - l.from, p - l.from);
+                let (dot, len2) = (w.dot(v), v.square_length());
+                let want = if len2 == 0.0 || dot <= 0.0 {
+                    w.square_length()
+                } else if dot >= len2 {
+                    (p - l.to).square_length()
+                } else {
+                    crs(v, w) * crs(v, w) / len2
+                };
+                if (sq - want).abs() > 1e-12 * (1.0 + want) {
+                    au.bad("LineSegment::square_distance_to_point differs from the exact value", format!("{} -> {} vs {}", label, sq, want));
+                }
+            }
+        });
+    }
+    // ================================================================ Line, LineEquation
+    for _ in 0..n {
+        let r = &mut *rng;
+        let pt = au_point(r);
+        let v: V2 = match r.below(6) {
+            0 => vector(r.range(1, 8) as f64 * if r.chance(1, 2) { 1.0 } else { -1.0 }, 0.0),
+            1 => vector(0.0, r.range(1, 8) as f64 * if r.chance(1, 2) { 1.0 } else { -1.0 }),
+            2 => vector((r.unit_f64() - 0.5) * 10.0, (r.unit_f64() - 0.5) * 10.0),
+            _ => loop {
+                let v = ipt(r, 8);
+                if v != point(0.0, 0.0) {
+                    break v.to_vector();
+                }
+            },
+        };
+        let line = Line { point: pt, vector: v };
+        let p = au_point(r);
+        let p2 = au_point(r);
+        let dd = r.range(-20, 20) as f64 / 4.0;
+        let label = format!("{:?} point {:?} / {:?} offset {}", line, p, p2, dd);
+        cx.st.note_case(&label, true);
+        au_run(cx, seen, &["Line_signed_distance_to_point", "Line_distance_to_point", "Line_square_distance_to_point", "LineEquation_project_point", "LineEquation_signed_distance_to_point", "LineEquation_distance_to_point", "LineEquation_invert", "LineEquation_parallel_line", "LineEquation_offset", "LineEquation_tangent_normal", "LineEquation_solve_y_for_x", "LineEquation_solve_x_for_y"], &label, |au| {
+            let sc = pscale(&[pt, p, p2]) + v.x.abs().max(v.y.abs());
+            let e = 1e-11 * sc;
+            let len = v.length();
+            let cr = crs(v, p - pt);
+            let sd = line.signed_distance_to_point(&p);
+            // the foot of the perpendicular, computed here
+            let foot = pt + v * ((p - pt).dot(v) / v.square_length());
+            if !sd.is_finite() || (sd.abs() - (p - foot).length()).abs() > e || (sd * len - cr).abs() > 1e-11 * sc * sc {
+                au.bad("Line::signed_distance_to_point is not the distance to the foot of the perpendicular (signed by the side)", format!("{} -> {}", label, sd));
+            }
+            if (line.distance_to_point(&p) - sd.abs()).abs() > e || (line.square_distance_to_point(p) - sd * sd).abs() > e * (1.0 + sd.abs()) {
+                au.bad("Line::distance_to_point / square_distance_to_point differ from the signed distance", label.clone());
+            }
+            let eq = line.equation();
+            if (eq.a() * eq.a() + eq.b() * eq.b() - 1.0).abs() > 1e-12 {
+                au.bad("LineEquation: a * a + b * b is not 1", format!("{} -> {:?}", label, eq));
+            }
+            let on = |q: P| eq.a() * q.x + eq.b() * q.y + eq.c();
+            if on(pt).abs() > e || on(pt + v).abs() > e * (1.0 + len) {
+                au.bad("Line::equation: the points of the line do not satisfy a x + b y + c = 0", format!("{} -> {:?}", label, eq));
+            }
+            let esd = eq.signed_distance_to_point(&p);
+            if (esd - sd).abs() > e || (eq.distance_to_point(&p) - sd.abs()).abs() > e {
+                au.bad("LineEquation::signed_distance_to_point / distance_to_point differ from those of the line", format!("{} -> {} vs {}", label, esd, sd));
+            }
+            let pr = eq.project_point(&p);
+            if !finite_pts(&[pr]) || (pr - foot).length() > 1e-10 * sc {
+                au.bad("LineEquation::project_point is not the foot of the perpendicular", format!("{} -> {:?} vs {:?}", label, pr, foot));
+            }
+            let inv = eq.invert();
+            if (inv.signed_distance_to_point(&p) + esd).abs() > e || (inv.signed_distance_to_point(&pt)).abs() > e {
+                au.bad("LineEquation::invert does not negate the signed distance", label.clone());
+            }
+            let par = eq.parallel_line(&p2);
+            if par.signed_distance_to_point(&p2).abs() > e || par.normal() != eq.normal() {
+                au.bad("LineEquation::parallel_line is not the parallel through the point", format!("{} -> {:?}", label, par));
+            }
+            let off = eq.offset(dd);
+            if (off.signed_distance_to_point(&p) - (esd - dd)).abs() > e || off.normal() != eq.normal() {
+                au.bad("LineEquation::offset(d) does not lower every signed distance by d", format!("{} -> {:?}", label, off));
+            }
+            // a point at signed distance d of the line is on the offset line
+            let q = foot + eq.normal() * dd;
+            if off.signed_distance_to_point(&q).abs() > e {
+                au.bad("LineEquation::offset(d): a point at signed distance d is not on the offset line", format!("{} -> {:?}", label, off));
+            }
+            let (tg, nm) = (eq.tangent(), eq.normal());
+            if tg.dot(nm).abs() > 1e-12 || nm != vector(eq.a(), eq.b()) || crs(tg, v).abs() > 1e-12 * (1.0 + len) || (tg.length() - 1.0).abs() > 1e-12 {
+                au.bad("LineEquation::tangent / normal are not the unit tangent / normal of the line", format!("{} -> {:?} {:?}", label, tg, nm));
+            }
+            match eq.solve_y_for_x(p.x) {
+                None => {
+                    if v.x != 0.0 {
+                        au.bad("LineEquation::solve_y_for_x is None for a line that is not vertical", label.clone());
+                    }
+                }
+                Some(y) => {
+                    if v.x == 0.0 {
+                        au.bad("LineEquation::solve_y_for_x has a value on a vertical line", label.clone());
+                    } else {
+                        let k = (p.x - pt.x) / v.x;
+                        if !y.is_finite() || (y - (pt.y + v.y * k)).abs() > 1e-10 * sc * (1.0 + k.abs()) {
+                            au.bad("LineEquation::solve_y_for_x: the point (x, y) is not on the line", format!("{} -> {}", label, y));
+                        }
+                    }
+                }
+            }
+            match eq.solve_x_for_y(p.y) {
+                None => {
+                    if v.y != 0.0 {
+                        au.bad("LineEquation::solve_x_for_y is None for a line that is not horizontal", label.clone());
+                    }
+                }
+                Some(x) => {
+                    if v.y == 0.0 {
+                        au.bad("LineEquation::solve_x_for_y has a value on a horizontal line", label.clone());
+                    } else {
+                        let k = (p.y - pt.y) / v.y;
+                        if !x.is_finite() || (x - (pt.x + v.x * k)).abs() > 1e-10 * sc * (1.0 + k.abs()) {
+                            au.bad("LineEquation::solve_x_for_y: the point (x, y) is not on the line", format!("{} -> {}", label, x));
+                        }
+                    }
+                }
+            }
+        });
+    }
+    // ================================================================ Triangle
+    for _ in 0..n {
+        let r = &mut *rng;
+        let tri = Triangle { a: ipt(r, 8), b: ipt(r, 8), c: ipt(r, 8) };
+        let p = if r.chance(2, 3) {
+            // on the 1/8 grid of the sides: inside, or anywhere around the triangle
+            let (i, j) = if r.chance(1, 2) {
+                let i = r.range(1, 6);
+                (i as f64, r.range(1, 7 - i) as f64)
+            } else {
+                (r.range(-2, 10) as f64, r.range(-2, 10) as f64)
+            };
+            tri.a + ((tri.b - tri.a) * i + (tri.c - tri.a) * j) / 8.0
+        } else {
+            let a = ipt(r, 40);
+            point(a.x / 4.0, a.y / 4.0)
+        };
+        let (m, mv) = loop {
+            let (m, mv) = xf(r);
+            if mv[0] * mv[3] - mv[1] * mv[2] != 0.0 {
+                break (m, mv);
+            }
+        };
+        let label = format!("{:?} point {:?} transform {:?}", tri, p, mv);
+        let area2 = crs(tri.b - tri.a, tri.c - tri.a);
+        cx.st.note_case(&label, area2 != 0.0);
+        au_run(cx, seen, &["Triangle_edges", "Triangle_transform"], &label, |au| {
+            let e = |f: P, t: P| LineSegment { from: f, to: t };
+            if tri.ab() != e(tri.a, tri.b) || tri.ba() != e(tri.b, tri.a) || tri.bc() != e(tri.b, tri.c) || tri.cb() != e(tri.c, tri.b) || tri.ca() != e(tri.c, tri.a) || tri.ac() != e(tri.a, tri.c) {
+                au.bad("Triangle edge accessors are not the segments between the named vertices", label.clone());
+            }
+            let tt = tri.transform(&m);
+            if tt.a != m.transform_point(tri.a) || tt.b != m.transform_point(tri.b) || tt.c != m.transform_point(tri.c) {
+                au.bad("Triangle::transform does not map the vertices", label.clone());
+            }
+            if area2 != 0.0 {
+                // exact position of the point (all values are small multiples of 1/8)
+                let o = [crs(tri.b - tri.a, p - tri.a), crs(tri.c - tri.b, p - tri.b), crs(tri.a - tri.c, p - tri.c)];
+                if o.iter().any(|x| *x == 0.0) {
+                    au.inc("audit_triangle_point_on_an_edge_line");
+                    return;
+                }
+                let inside = o.iter().all(|x| (*x > 0.0) == (area2 > 0.0));
+                au.inc(if inside { "audit_triangle_point_inside" } else { "audit_triangle_point_outside" });
+                if tri.contains_point(p) != inside {
+                    au.bad("Triangle::contains_point differs from the exact position of the point", label.clone());
+                }
+                if tt.contains_point(m.transform_point(p)) != inside {
+                    au.bad("Triangle::transform does not commute with contains_point", label.clone());
+                }
+            }
+        });
+    }
+    // ================================================================ QuadraticBezierSegment
+    // ---- closest_point, distance_to_point, square_distance_to_point
+    for _ in 0..n {
+        let r = &mut *rng;
+        let q = au_quad(r);
+        let p = match r.below(4) {
+            0 => q.sample(dy(r)),
+            _ => au_point(r),
+        };
+        let label = format!("{:?} point {:?}", q, p);
+        cx.st.note_case(&label, q.from != q.to || q.ctrl != q.from);
+        au_run(cx, seen, &["quadratic_closest_point", "quadratic_distance_to_point", "quadratic_square_distance_to_point"], &label, |au| {
+            let sc = pscale(&[q.from, q.ctrl, q.to, p]);
+            let t = q.closest_point(p);
+            if !(0.0..=1.0).contains(&t) {
+                au.bad("QuadraticBezierSegment::closest_point: the parameter is not in [0, 1]", format!("{} -> {}", label, t));
+                return;
+            }
+            let d = (q.sample(t) - p).length();
+            let (mut best, mut best_t) = (f64::MAX, 0.0);
+            for i in 0..=512 {
+                let u = i as f64 / 512.0;
+                let di = (q.sample(u) - p).length();
+                if di < best {
+                    best = di;
+                    best_t = u;
+                }
+            }
+            if best < d - 1e-9 * sc {
+                au.bad("QuadraticBezierSegment::closest_point: a sampled point of the curve is closer", format!("{} -> t={} at distance {}, sample t={} at {}", label, t, d, best_t, best));
+            }
+            let (dd, sq) = (q.distance_to_point(p), q.square_distance_to_point(p));
+            if (dd - d).abs() > 1e-12 * sc || (sq - d * d).abs() > 1e-12 * sc * (1.0 + d) {
+                au.bad("QuadraticBezierSegment::distance_to_point / square_distance_to_point differ from the distance to closest_point", format!("{} -> {} {} vs {}", label, dd, sq, d));
+            }
+        });
+    }
+    // ---- drag
+    for _ in 0..n {
+        let r = &mut *rng;
+        let q = au_quad(r);
+        let t = if r.chance(1, 2) { r.range(1, 15) as f64 / 16.0 } else { 0.02 + 0.96 * r.unit_f64() };
+        let np = au_point(r);
+        let label = format!("{:?} t={} to {:?}", q, t, np);
+        cx.st.note_case(&label, true);
+        au_run(cx, seen, &["quadratic_drag"], &label, |au| {
+            let sc = pscale(&[q.from, q.ctrl, q.to, np]);
+            let d = q.drag(t, np);
+            if d.from != q.from || d.to != q.to {
+                au.bad("QuadraticBezierSegment::drag moves an end point", format!("{} -> {:?}", label, d));
+            }
+            if !finite_pts(&[d.ctrl]) || (d.sample(t) - np).length() > 1e-10 * sc / (t * (1.0 - t)) {
+                au.bad("QuadraticBezierSegment::drag: the dragged curve does not pass through the new position at t", format!("{} -> {:?}, sample {:?}", label, d, d.sample(t)));
+            }
+        });
+    }
+    // ---- baseline, is_a_point, is_linear
+    for _ in 0..n {
+        let r = &mut *rng;
+        let q = au_quad(r);
+        let tol = au_tol(r);
+        let label = format!("{:?} tolerance {}", q, tol);
+        cx.st.note_case(&label, true);
+        au_run(cx, seen, &["quadratic_baseline", "quadratic_is_a_point", "quadratic_is_linear"], &label, |au| {
+            let sc = pscale(&[q.from, q.ctrl, q.to]);
+            let b = q.baseline();
+            if b.from != q.from || b.to != q.to {
+                au.bad("QuadraticBezierSegment::baseline is not the segment between the end points", label.clone());
+            }
+            let samples: Vec<P> = (0..=64).map(|i| q.sample(i as f64 / 64.0)).collect();
+            let pt = q.is_a_point(tol);
+            if pt {
+                au.inc("audit_quadratic_is_a_point_true");
+                if samples.iter().any(|s| (*s - q.from).length() > tol * (1.0 + 1e-12) + 1e-13 * sc) {
+                    au.bad("QuadraticBezierSegment::is_a_point is true but a point of the curve is further than the tolerance from the start", label.clone());
+                }
+            }
+            if q.from == q.ctrl && q.from == q.to && !pt {
+                au.bad("QuadraticBezierSegment::is_a_point is false although all control points coincide", label.clone());
+            }
+            let lin = q.is_linear(tol);
+            let (v, w) = (q.to - q.from, q.ctrl - q.from);
+            let beyond = if q.from == q.to { q.ctrl != q.from } else { w.dot(v) < 0.0 || w.dot(v) > v.square_length() };
+            if lin {
+                au.inc("audit_quadratic_is_linear_true");
+                let e = tol * (1.0 + 1e-9) + 1e-12 * sc;
+                if q.from != q.to && samples.iter().any(|s| dist_line(*s, q.from, q.to) > e) {
+                    au.bad("QuadraticBezierSegment::is_linear is true but a point of the curve is further than the tolerance from the line through the end points", label.clone());
+                } else if samples.iter().any(|s| dist_seg(*s, q.from, q.to) > e) {
+                    let what = "QuadraticBezierSegment::is_linear is true but a point of the curve is further than the tolerance from the baseline segment";
+                    if beyond {
+                        au.inc("audit_quadratic_is_linear_true_beyond_baseline_K2");
+                        au.known(what, label.clone(), "K2");
+                    } else {
+                        au.bad(what, label.clone());
+                    }
+                }
+            }
+            // control point exactly on the baseline segment (or all points equal): a line segment for every tolerance
+            if crs(v, w) == 0.0 && !beyond && is_lattice(&[q.from * 8.0, q.ctrl * 8.0, q.to * 8.0]) && !lin {
+                au.bad("QuadraticBezierSegment::is_linear is false although the control point is on the baseline segment", label.clone());
+            }
+        });
+    }
+    // ---- bounding_triangle, fat_line, flattening_step
+    for _ in 0..n {
+        let r = &mut *rng;
+        let q = au_quad(r);
+        let tol = 0.001 + au_tol(r);
+        let label = format!("{:?} tolerance {}", q, tol);
+        cx.st.note_case(&label, true);
+        au_run(cx, seen, &["quadratic_bounding_triangle", "quadratic_fat_line", "quadratic_flattening_step"], &label, |au| {
+            let sc = pscale(&[q.from, q.ctrl, q.to]);
+            let e = 1e-9 * sc;
+            let tri = q.bounding_triangle();
+            let area2 = crs(tri.b - tri.a, tri.c - tri.a);
+            for i in 0..=32 {
+                let u = i as f64 / 32.0;
+                let s = q.sample(u);
+                let o = [crs(tri.b - tri.a, s - tri.a), crs(tri.c - tri.b, s - tri.b), crs(tri.a - tri.c, s - tri.c)];
+                let inside = area2 != 0.0 && o.iter().all(|x| (*x > 0.0) == (area2 > 0.0));
+                let near = dist_seg(s, tri.a, tri.b).min(dist_seg(s, tri.b, tri.c)).min(dist_seg(s, tri.c, tri.a)) <= e;
+                if !inside && !near {
+                    au.bad("QuadraticBezierSegment::bounding_triangle does not contain a point of the curve", format!("{} u={}", label, u));
+                    break;
+                }
+                // strictly inside for inner parameters of a proper triangle: the library's own test must agree
+                if area2.abs() >= 1.0 / 64.0 && i >= 2 && i <= 30 && !tri.contains_point(s) {
+                    au.bad("QuadraticBezierSegment::bounding_triangle().contains_point is false for an inner point of the curve", format!("{} u={}", label, u));
+                    break;
+                }
+            }
+            if q.from != q.to {
+                let (l1, l2) = q.fat_line();
+                for i in 0..=64 {
+                    let s = q.sample(i as f64 / 64.0);
+                    let (s1, s2) = (l1.signed_distance_to_point(&s), l2.signed_distance_to_point(&s));
+                    // between the two lines: not strictly on the same side of both
+                    if !(s1.is_finite() && s2.is_finite()) || (s1 > e && s2 > e) || (s1 < -e && s2 < -e) {
+                        au.bad("QuadraticBezierSegment::fat_line: a point of the curve is not between the two lines", format!("{} u={}/64 distances {} {}", label, i, s1, s2));
+                        break;
+                    }
+                }
+                // the lines are parallel to the baseline and one of them contains it
+                let d = (q.to - q.from).normalize();
+                if crs(l1.tangent(), d).abs() > 1e-9 || crs(l2.tangent(), d).abs() > 1e-9 {
+                    au.bad("QuadraticBezierSegment::fat_line: the lines are not parallel to the baseline", label.clone());
+                }
+            } else {
+                let (l1, l2) = q.fat_line();
+                au.inc(if l1.a().is_finite() && l2.a().is_finite() { "audit_fat_line_closed_curve_finite" } else { "audit_fat_line_closed_curve_not_finite" });
+            }
+            let st = q.flattening_step(tol);
+            if !(st > 0.0 && st <= 1.0) {
+                au.bad("QuadraticBezierSegment::flattening_step is not in (0, 1]", format!("{} -> {}", label, st));
+            } else {
+                let end = q.sample(st);
+                let mut worst = 0.0f64;
+                for i in 0..=32 {
+                    worst = worst.max(dist_seg(q.sample(st * i as f64 / 32.0), q.from, end));
+                }
+                if worst > tol * (1.0 + 1e-6) + e {
+                    let (v, w) = (q.to - q.from, q.ctrl - q.from);
+                    let what = "QuadraticBezierSegment::flattening_step: the curve up to the step is further than the tolerance from the line segment";
+                    let input = format!("{} -> step {} deviation {}", label, st, worst);
+                    if crs(v, w).abs() <= 1e-9 * sc * sc {
+                        au.inc("audit_flattening_step_collinear_excess");
+                        au.known(what, input, "K2");
+                    } else {
+                        au.bad(what, input);
+                    }
+                }
+            }
+        });
+    }
+    // ---- cast (all three curve types and the arc)
+    for _ in 0..n {
+        let r = &mut *rng;
+        let big = r.chance(1, 8);
+        let g = |r: &mut Rng| {
+            if big {
+                point((r.unit_f64() - 0.5) * 1e30, (r.unit_f64() - 0.5) * 1e-30)
+            } else {
+                point((r.unit_f64() - 0.5) * 2000.0, (r.unit_f64() - 0.5) * 2000.0)
+            }
+        };
+        let q = QuadraticBezierSegment { from: g(r), ctrl: g(r), to: g(r) };
+        let c = CubicBezierSegment { from: g(r), ctrl1: g(r), ctrl2: g(r), to: g(r) };
+        let arc = Arc { center: g(r), radii: g(r).to_vector(), start_angle: lyon_geom::Angle::radians(r.unit_f64() * 7.0), sweep_angle: lyon_geom::Angle::radians(r.unit_f64() * 7.0 - 3.5), x_rotation: lyon_geom::Angle::radians(r.unit_f64()) };
+        let label = format!("{:?} / {:?} / {:?}", q, c, arc);
+        cx.st.note_case(&label, true);
+        au_run(cx, seen, &["quadratic_cast", "cubic_to_f32_to_f64", "arc_cast"], &label, |au| {
+            let rp = |p: P| lyon_geom::point(p.x as f32, p.y as f32);
+            let bp = |p: lyon_geom::Point<f32>| point(p.x as f64, p.y as f64);
+            let q32 = q.cast::<f32>();
+            if q32.from != rp(q.from) || q32.ctrl != rp(q.ctrl) || q32.to != rp(q.to) {
+                au.bad("QuadraticBezierSegment::cast::<f32> is not the rounding of every coordinate", format!("{:?} -> {:?}", q, q32));
+            }
+            let q64 = q32.cast::<f64>();
+            if q64.from != bp(rp(q.from)) || q64.ctrl != bp(rp(q.ctrl)) || q64.to != bp(rp(q.to)) || q.cast::<f64>() != q {
+                au.bad("QuadraticBezierSegment::cast back to f64 changes the rounded coordinates", format!("{:?} -> {:?}", q, q64));
+            }
+            // (the cubic has no `cast`: its conversions are to_f32 / to_f64; the same for the quadratic)
+            let c32 = c.to_f32();
+            if c32.from != rp(c.from) || c32.ctrl1 != rp(c.ctrl1) || c32.ctrl2 != rp(c.ctrl2) || c32.to != rp(c.to) {
+                au.bad("CubicBezierSegment::to_f32 is not the rounding of every coordinate", format!("{:?} -> {:?}", c, c32));
+            }
+            let c64 = c32.to_f64();
+            if c64.from != bp(rp(c.from)) || c64.ctrl1 != bp(rp(c.ctrl1)) || c64.ctrl2 != bp(rp(c.ctrl2)) || c64.to != bp(rp(c.to)) || c.to_f64() != c {
+                au.bad("CubicBezierSegment::to_f64 changes the rounded coordinates", format!("{:?} -> {:?}", c, c64));
+            }
+            if q.to_f32() != q32 || q32.to_f64() != q64 {
+                au.bad("QuadraticBezierSegment::to_f32 / to_f64 differ from cast", format!("{:?}", q));
+            }
+            let a32 = arc.cast::<f32>();
+            if a32.center != rp(arc.center) || a32.radii != rp(arc.radii.to_point()).to_vector() || a32.start_angle.radians != arc.start_angle.radians as f32 || a32.sweep_angle.radians != arc.sweep_angle.radians as f32 || a32.x_rotation.radians != arc.x_rotation.radians as f32 {
+                au.bad("Arc::cast::<f32> is not the rounding of every field", format!("{:?} -> {:?}", arc, a32));
+            }
+            if arc.cast::<f64>() != arc {
+                au.bad("Arc::cast::<f64> of an f64 arc changes it", format!("{:?}", arc));
+            }
+        });
+    }
+    // ================================================================ CubicBezierSegment
+    // ---- solve_t_for_x, solve_t_for_y
+    for it in 0..n {
+        let r = &mut *rng;
+        let mut c = au_cubic(r);
+        if it % 3 == 0 {
+            // monotonic in x and in y: sort the coordinates of the control points
+            let mut xs = [c.from.x, c.ctrl1.x, c.ctrl2.x, c.to.x];
+            let mut ys = [c.from.y, c.ctrl1.y, c.ctrl2.y, c.to.y];
+            xs.sort_by(|a, b| a.partial_cmp(b).unwrap());
+            ys.sort_by(|a, b| b.partial_cmp(a).unwrap());
+            c = CubicBezierSegment { from: point(xs[0], ys[0]), ctrl1: point(xs[1], ys[1]), ctrl2: point(xs[2], ys[2]), to: point(xs[3], ys[3]) };
+        }
+        let k = match r.below(3) {
+            0 => r.range(1, 15) as f64 / 16.0,
+            _ => 0.01 + 0.98 * r.unit_f64(),
+        };
+        let (qx, qy) = match r.below(6) {
+            0 => (c.from.x + (c.to.x - c.from.x) * k, c.from.y + (c.to.y - c.from.y) * k),
+            1 => (*r.pick(&[c.from.x, c.to.x]), *r.pick(&[c.from.y, c.to.y])),
+            _ => (c.x(k), c.y(k)),
+        };
+        let label = format!("{:?} x={} y={}", c, qx, qy);
+        cx.st.note_case(&label, true);
+        au_run(cx, seen, &["cubic_solve_t_for_x", "cubic_solve_t_for_y"], &label, |au| {
+            let sc = pscale(&[c.from, c.ctrl1, c.ctrl2, c.to]);
+            for axis in 0..2 {
+                let name = ["x", "y"][axis];
+                let (val, roots): (f64, Vec<f64>) = if axis == 0 { (qx, c.solve_t_for_x(qx).to_vec()) } else { (qy, c.solve_t_for_y(qy).to_vec()) };
+                let co = |t: f64| if axis == 0 { c.x(t) } else { c.y(t) };
+                let p = if axis == 0 { [c.from.x, c.ctrl1.x, c.ctrl2.x, c.to.x] } else { [c.from.y, c.ctrl1.y, c.ctrl2.y, c.to.y] };
+                for t in &roots {
+                    if !(*t >= 0.0 && *t <= 1.0) {
+                        au.bad(&format!("CubicBezierSegment::solve_t_for_{}: a parameter is not in [0, 1]", name), format!("{} -> {:?}", label, roots));
+                    } else if (co(*t) - val).abs() > 1e-6 * sc {
+                        au.bad(&format!("CubicBezierSegment::solve_t_for_{}: the coordinate at a reported parameter is not the value asked for", name), format!("{} -> {:?}, coordinate {}", label, roots, co(*t)));
+                    }
+                }
+                // every crossing seen by sampling is reported
+                let g: Vec<f64> = (0..=256).map(|i| co(i as f64 / 256.0) - val).collect();
+                let clear = 1e-7 * sc;
+                // (between two samples clearly on opposite sides, whatever lies between them)
+                let mut crossings = 0;
+                let mut last: Option<(usize, bool)> = None;
+                for i in 0..=256 {
+                    if g[i].abs() <= clear {
+                        continue;
+                    }
+                    if let Some((j, side)) = last {
+                        if side != (g[i] > 0.0) {
+                            crossings += 1;
+                            let (lo, hi) = (j as f64 / 256.0 - 1e-6, i as f64 / 256.0 + 1e-6);
+                            if !roots.iter().any(|t| *t >= lo && *t <= hi) {
+                                au.bad(&format!("CubicBezierSegment::solve_t_for_{}: the curve crosses the value but no parameter is reported there", name), format!("{} -> {:?}, crossing in {}..{}", label, roots, lo, hi));
+                                break;
+                            }
+                        }
+                    }
+                    last = Some((i, g[i] > 0.0));
+                }
+                // strictly monotonic coordinate (control values strictly increasing or decreasing) and a value strictly
+                // between the ends: exactly one parameter
+                let strictly = (p[0] < p[1] && p[1] < p[2] && p[2] < p[3]) || (p[0] > p[1] && p[1] > p[2] && p[2] > p[3]);
+                if strictly && val > p[0].min(p[3]) + clear && val < p[0].max(p[3]) - clear {
+                    au.inc("audit_cubic_solve_t_monotonic_inner_value");
+                    if roots.len() != 1 || crossings != 1 {
+                        au.bad(&format!("CubicBezierSegment::solve_t_for_{}: a strictly monotonic coordinate takes an inner value at exactly one parameter", name), format!("{} -> {:?}", label, roots));
+                    }
+                }
+                if val == p[0] || val == p[3] {
+                    au.inc(if roots.is_empty() { "audit_cubic_solve_t_end_value_no_parameter" } else { "audit_cubic_solve_t_end_value_some_parameter" });
+                }
+            }
+        });
+    }
+    // ---- drag, drag_with_weight
+    for _ in 0..n {
+        let r = &mut *rng;
+        let c = au_cubic(r);
+        let t = if r.chance(1, 2) { r.range(1, 15) as f64 / 16.0 } else { 0.02 + 0.96 * r.unit_f64() };
+        let np = au_point(r);
+        let w = *r.pick(&[0.0, 0.25, 0.5, 0.75, 1.0]);
+        let label = format!("{:?} t={} to {:?} weight {}", c, t, np, w);
+        cx.st.note_case(&label, true);
+        au_run(cx, seen, &["cubic_drag", "cubic_drag_with_weight"], &label, |au| {
+            let sc = pscale(&[c.from, c.ctrl1, c.ctrl2, c.to, np]);
+            let amp = 1.0 / (t * (1.0 - t)).powi(2);
+            for (name, d) in [("drag", c.drag(t, np)), ("drag_with_weight", c.drag_with_weight(t, np, w))] {
+                if d.from != c.from || d.to != c.to {
+                    au.bad(&format!("CubicBezierSegment::{} moves an end point", name), format!("{} -> {:?}", label, d));
+                }
+                if !finite_pts(&[d.ctrl1, d.ctrl2]) {
+                    if c.ctrl1 == c.ctrl2 {
+                        au.inc("audit_cubic_drag_coincident_controls_not_finite");
+                    }
+                    au.bad(&format!("CubicBezierSegment::{}: the dragged curve has control points that are not finite", name), format!("{} -> {:?}", label, d));
+                } else if (d.sample(t) - np).length() > 1e-9 * sc * amp {
+                    au.bad(&format!("CubicBezierSegment::{}: the dragged curve does not pass through the new position at t", name), format!("{} -> {:?}, sample {:?}", label, d, d.sample(t)));
+                }
+            }
+            // the weights as described: 0.5 moves both control points alike; weight 0 (used by drag before 0.1) leaves
+            // ctrl2 alone in the first half, weight 1 (used after 0.9) leaves ctrl1 alone in the second half
+            if c.ctrl1 != c.ctrl2 {
+                let e = 1e-9 * sc * amp;
+                let h = c.drag_with_weight(t, np, 0.5);
+                if ((h.ctrl1 - c.ctrl1) - (h.ctrl2 - c.ctrl2)).length() > e {
+                    au.bad("CubicBezierSegment::drag_with_weight(0.5) does not move the two control points alike", format!("{} -> {:?}", label, h));
+                }
+                if t < 0.5 && (c.drag_with_weight(t, np, 0.0).ctrl2 - c.ctrl2).length() > e {
+                    au.bad("CubicBezierSegment::drag_with_weight(0) moves ctrl2 (t < 0.5)", label.clone());
+                }
+                if t >= 0.5 && (c.drag_with_weight(t, np, 1.0).ctrl1 - c.ctrl1).length() > e {
+                    au.bad("CubicBezierSegment::drag_with_weight(1) moves ctrl1 (t >= 0.5)", label.clone());
+                }
+                // recorded, not required: the comment also claims it for the other half
+                if t >= 0.5 && (c.drag_with_weight(t, np, 0.0).ctrl2 - c.ctrl2).length() > e {
+                    au.inc("audit_cubic_drag_weight_0_moves_ctrl2_in_second_half");
+                }
+                if t < 0.5 && (c.drag_with_weight(t, np, 1.0).ctrl1 - c.ctrl1).length() > e {
+                    au.inc("audit_cubic_drag_weight_1_moves_ctrl1_in_first_half");
+                }
+            }
+        });
+    }
+    // ---- baseline, is_linear, fat_line
+    for _ in 0..n {
+        let r = &mut *rng;
+        let c = au_cubic(r);
+        let tol = au_tol(r);
+        let label = format!("{:?} tolerance {}", c, tol);
+        cx.st.note_case(&label, true);
+        au_run(cx, seen, &["cubic_baseline", "cubic_is_linear", "cubic_fat_line"], &label, |au| {
+            let sc = pscale(&[c.from, c.ctrl1, c.ctrl2, c.to]);
+            let b = c.baseline();
+            if b.from != c.from || b.to != c.to {
+                au.bad("CubicBezierSegment::baseline is not the segment between the end points", label.clone());
+            }
+            let samples: Vec<P> = (0..=64).map(|i| c.sample(i as f64 / 64.0)).collect();
+            let lin = c.is_linear(tol);
+            let v = c.to - c.from;
+            let out = |p: P| if c.from == c.to { p != c.from } else { (p - c.from).dot(v) < 0.0 || (p - c.from).dot(v) > v.square_length() };
+            let beyond = out(c.ctrl1) || out(c.ctrl2);
+            if lin {
+                au.inc("audit_cubic_is_linear_true");
+                let e = tol * (1.0 + 1e-9) + 1e-12 * sc;
+                if c.from != c.to && samples.iter().any(|s| dist_line(*s, c.from, c.to) > e) {
+                    au.bad("CubicBezierSegment::is_linear is true but a point of the curve is further than the tolerance from the line through the end points", label.clone());
+                } else if samples.iter().any(|s| dist_seg(*s, c.from, c.to) > e) {
+                    let what = "CubicBezierSegment::is_linear is true but a point of the curve is further than the tolerance from the baseline segment";
+                    if beyond {
+                        au.inc("audit_cubic_is_linear_true_beyond_baseline_K2");
+                        au.known(what, label.clone(), "K2");
+                    } else {
+                        au.bad(what, label.clone());
+                    }
+                }
+            }
+            let on_baseline = crs(v, c.ctrl1 - c.from) == 0.0 && crs(v, c.ctrl2 - c.from) == 0.0 && !beyond && is_lattice(&[c.from * 8.0, c.ctrl1 * 8.0, c.ctrl2 * 8.0, c.to * 8.0]);
+            if on_baseline && !lin {
+                if c.from == c.to {
+                    au.bad("CubicBezierSegment::is_linear is false although all four control points coincide", label.clone());
+                } else {
+                    au.bad("CubicBezierSegment::is_linear is false although both control points are on the baseline segment", label.clone());
+                }
+            }
+            let (l1, l2) = c.fat_line();
+            if c.from != c.to {
+                let e = 1e-9 * sc;
+                for (i, s) in samples.iter().enumerate() {
+                    let (s1, s2) = (l1.signed_distance_to_point(s), l2.signed_distance_to_point(s));
+                    if !(s1.is_finite() && s2.is_finite()) || (s1 > e && s2 > e) || (s1 < -e && s2 < -e) {
+                        au.bad("CubicBezierSegment::fat_line: a point of the curve is not between the two lines", format!("{} u={}/64 distances {} {}", label, i, s1, s2));
+                        break;
+                    }
+                }
+                let d = v.normalize();
+                if crs(l1.tangent(), d).abs() > 1e-9 || crs(l2.tangent(), d).abs() > 1e-9 {
+                    au.bad("CubicBezierSegment::fat_line: the lines are not parallel to the baseline", label.clone());
+                }
+            } else {
+                au.inc(if l1.a().is_finite() && l2.a().is_finite() { "audit_fat_line_closed_curve_finite" } else { "audit_fat_line_closed_curve_not_finite" });
+            }
+        });
+    }
+    // ---- num_quadratics, to_quadratic_error, is_quadratic (with for_each_quadratic_bezier, to_quadratic)
+    for _ in 0..n {
+        let r = &mut *rng;
+        let c = au_cubic(r);
+        let tol = 0.001 + au_tol(r);
+        let label = format!("{:?} tolerance {}", c, tol);
+        cx.st.note_case(&label, true);
+        au_run(cx, seen, &["num_quadratics", "to_quadratic_error", "is_quadratic"], &label, |au| {
+            let sc = pscale(&[c.from, c.ctrl1, c.ctrl2, c.to]);
+            let nq = c.num_quadratics(tol);
+            let mut pieces: Vec<(QuadraticBezierSegment<f64>, std::ops::Range<f64>)> = Vec::new();
+            c.for_each_quadratic_bezier_with_t(tol, &mut |q, rg| pieces.push((*q, rg)));
+            let mut plain = 0u32;
+            c.for_each_quadratic_bezier(tol, &mut |_| plain += 1);
+            if nq as usize != pieces.len() || nq != plain || nq == 0 {
+                au.bad("CubicBezierSegment::num_quadratics is not the number of pieces of for_each_quadratic_bezier", format!("{} -> {} vs {} / {}", label, nq, pieces.len(), plain));
+                return;
+            }
+            let e = 1e-9 * sc;
+            if pieces[0].1.start != 0.0 || pieces[pieces.len() - 1].1.end != 1.0 || pieces.windows(2).any(|w| w[0].1.end != w[1].1.start) || pieces[0].0.from != c.from || pieces[pieces.len() - 1].0.to != c.to || pieces.windows(2).any(|w| (w[0].0.to - w[1].0.from).length() > e) {
+                au.bad("CubicBezierSegment::for_each_quadratic_bezier_with_t: the pieces do not chain from the start to the end of the curve", label.clone());
+            }
+            let mut worst = 0.0f64;
+            for (q, rg) in &pieces {
+                for i in 0..=16 {
+                    let u = i as f64 / 16.0;
+                    worst = worst.max((q.sample(u) - c.sample(rg.start + (rg.end - rg.start) * u)).length());
+                }
+            }
+            if worst > tol * (1.0 + 1e-6) + e {
+                au.bad("CubicBezierSegment::num_quadratics: a piece is further than the tolerance from the cubic", format!("{} -> {} pieces, deviation {}", label, nq, worst));
+            }
+            let err = c.to_quadratic_error();
+            let q = c.to_quadratic();
+            if q.from != c.from || q.to != c.to {
+                au.bad("CubicBezierSegment::to_quadratic moves an end point", label.clone());
+            }
+            let mut dev = 0.0f64;
+            for i in 0..=128 {
+                let u = i as f64 / 128.0;
+                dev = dev.max((q.sample(u) - c.sample(u)).length());
+            }
+            if !(err >= 0.0) || dev > err * (1.0 + 1e-9) + 1e-12 * sc {
+                au.bad("CubicBezierSegment::to_quadratic_error is not an upper bound of the distance to to_quadratic()", format!("{} -> bound {} sampled {}", label, err, dev));
+            }
+            for tq in [tol, err * 0.5, err * 2.0, err] {
+                if (err - tq).abs() > 1e-9 * (err + tq) {
+                    if c.is_quadratic(tq) != (err <= tq) {
+                        au.bad("CubicBezierSegment::is_quadratic disagrees with to_quadratic_error", format!("{} (asked with {}) -> bound {}", label, tq, err));
+                    }
+                } else if err == 0.0 && tq == 0.0 && !c.is_quadratic(0.0) {
+                    au.bad("CubicBezierSegment::is_quadratic(0) is false for a cubic whose error bound is 0", label.clone());
+                }
+            }
+            if nq == 1 && !c.is_quadratic(tol * (1.0 + 1e-9)) {
+                au.bad("CubicBezierSegment::num_quadratics is 1 but is_quadratic is false", label.clone());
+            }
+        });
+    }
+    // ---- for_each_inflection_t
+    for it in 0..n {
+        let r = &mut *rng;
+        // every third curve an S: both ends on a horizontal line, the control points on opposite sides of it
+        let s_shape = it % 3 == 0;
+        let c = if s_shape {
+            let lattice = r.chance(1, 2);
+            let g = |r: &mut Rng, lo: i64, hi: i64| if lattice { r.range(lo, hi) as f64 } else { lo as f64 + (hi - lo) as f64 * r.unit_f64() };
+            let x1 = g(r, 1, 6);
+            let x2 = x1 + g(r, 0, 6);
+            let len = x2 + g(r, 1, 6);
+            let (y1, y2) = (g(r, 1, 8), -g(r, 1, 8));
+            let (ox, oy) = (g(r, -5, 5), g(r, -5, 5));
+            let sg = if r.chance(1, 2) { 1.0 } else { -1.0 };
+            CubicBezierSegment { from: point(ox, oy), ctrl1: point(ox + x1, oy + sg * y1), ctrl2: point(ox + x2, oy + sg * y2), to: point(ox + len, oy) }
+        } else {
+            au_cubic(r)
+        };
+        let label = format!("{:?}", c);
+        cx.st.note_case(&label, true);
+        au_run(cx, seen, &["for_each_inflection_t"], &label, |au| {
+            let mut ts: Vec<f64> = Vec::new();
+            c.for_each_inflection_t(&mut |t| ts.push(t));
+            // cross product of the first and second derivative, from the control points: 18 (a t^2 + b t + c)
+            let pa = c.ctrl1 - c.from;
+            let pb = (c.ctrl2 - c.ctrl1) - (c.ctrl1 - c.from);
+            let pc = (c.to - c.ctrl2) - (c.ctrl2 - c.ctrl1) * 2.0 + (c.ctrl1 - c.from);
+            let (ka, kb, kc) = (crs(pb, pc), crs(pa, pc), crs(pa, pb));
+            let mag = 1.0 + ka.abs() + kb.abs() + kc.abs();
+            let second = |t: f64| ((c.ctrl2 - c.ctrl1) - (c.ctrl1 - c.from)) * (6.0 * (1.0 - t)) + ((c.to - c.ctrl2) - (c.ctrl2 - c.ctrl1)) * (6.0 * t);
+            let k = |t: f64| crs(c.derivative(t), second(t));
+            if ts.len() > 2 || ts.iter().any(|t| !(*t >= 0.0 && *t < 1.0)) || ts.windows(2).any(|w| w[0] > w[1]) {
+                au.bad("CubicBezierSegment::for_each_inflection_t reports more than two parameters, or one outside [0, 1), or out of order", format!("{} -> {:?}", label, ts));
+                return;
+            }
+            let inner: Vec<f64> = ts.iter().copied().filter(|t| *t > 0.0).collect();
+            let disc = kb * kb - 4.0 * ka * kc;
+            for t in &inner {
+                if k(*t).abs() > 1e-9 * 18.0 * mag * (1.0 + mag.sqrt()) {
+                    au.bad("CubicBezierSegment::for_each_inflection_t: first and second derivative are not parallel at a reported parameter", format!("{} -> {:?}, cross product {}", label, ts, k(*t)));
+                }
+                // simple roots well inside: the turning direction changes there
+                if disc > 1e-6 * mag * mag && ka.abs() > 1e-6 * mag || ka == 0.0 && kb.abs() > 1e-6 * mag {
+                    let sep = if ka != 0.0 { (disc.sqrt() / ka.abs()).min(1.0) } else { 1.0 };
+                    let h = 1e-3 * sep;
+                    if *t > 2.0 * h && *t < 1.0 - 2.0 * h && k(*t - h) * k(*t + h) >= 0.0 {
+                        au.bad("CubicBezierSegment::for_each_inflection_t: the turning direction does not change at a reported parameter", format!("{} -> {:?}", label, ts));
+                    }
+                }
+            }
+            if is_lattice(&[c.from, c.ctrl1, c.ctrl2, c.to]) && kc != 0.0 && ka + kb + kc != 0.0 {
+                // exact count of the roots of a t^2 + b t + c in (0, 1) (integer coefficients, no root at an end)
+                let k1 = ka + kb + kc;
+                let vertex_inside = ka != 0.0 && (-kb * ka > 0.0) && kb.abs() < 2.0 * ka.abs();
+                let want = if kc * k1 < 0.0 {
+                    1
+                } else if ka == 0.0 || disc < 0.0 || !vertex_inside {
+                    0
+                } else if disc == 0.0 {
+                    1
+                } else if ka * kc > 0.0 {
+                    2
+                } else {
+                    0
+                };
+                au.inc(["audit_inflections_exact_0", "audit_inflections_exact_1", "audit_inflections_exact_2"][want]);
+                if inner.len() != want {
+                    au.bad("CubicBezierSegment::for_each_inflection_t: the number of parameters in (0, 1) differs from the exact number of inflections", format!("{} -> {:?}, expected {}", label, ts, want));
+                }
+            }
+            if s_shape {
+                au.inc("audit_inflections_s_shape");
+                if inner.len() != 1 || ts.len() != 1 {
+                    au.bad("CubicBezierSegment::for_each_inflection_t: an S-shaped cubic has exactly one inflection", format!("{} -> {:?}", label, ts));
+                }
+            }
+        });
+    }
+    // ================================================================ Arc::circle
+    for _ in 0..n {
+        let r = &mut *rng;
+        let center = au_point(r);
+        let radius = match r.below(3) {
+            0 => r.range(1, 16) as f64 / 2.0,
+            _ => 0.01 + r.unit_f64() * 30.0,
+        };
+        let u = r.unit_f64();
+        let label = format!("circle {:?} radius {} u={}", center, radius, u);
+        cx.st.note_case(&label, true);
+        au_run(cx, seen, &["Arc_circle"], &label, |au| {
+            let a = Arc::circle(center, radius);
+            let e = 1e-12 * (pscale(&[center]) + radius);
+            if (a.sample(0.0) - a.sample(1.0)).length() > e || (a.from() - a.to()).length() > e {
+                au.bad("Arc::circle: the circle does not close (sample(0) is not sample(1))", label.clone());
+            }
+            let mut turn = 0.0;
+            let mut prev = a.sample(0.0) - center;
+            for i in 1..=64 {
+                let p = a.sample(i as f64 / 64.0);
+                if ((p - center).length() - radius).abs() > e {
+                    au.bad("Arc::circle: a point of the circle is not at the radius from the center", format!("{} t={}/64", label, i));
+                    break;
+                }
+                let d = p - center;
+                turn += crs(prev, d).atan2(prev.dot(d));
+                prev = d;
+            }
+            if (turn.abs() - 2.0 * std::f64::consts::PI).abs() > 1e-9 {
+                au.bad("Arc::circle: the samples do not go once around the center", format!("{} total angle {}", label, turn));
+            }
+            if ((a.sample(u) - center).length() - radius).abs() > e {
+                au.bad("Arc::circle: a point of the circle is not at the radius from the center", label.clone());
+            }
+            let b = a.bounding_box();
+            if (b.min - (center - vector(radius, radius))).length() > 1e-9 * (1.0 + radius) + e || (b.max - (center + vector(radius, radius))).length() > 1e-9 * (1.0 + radius) + e {
+                au.bad("Arc::circle: the bounding box is not the square around the center", format!("{} -> {:?}", label, b));
+            }
+        });
+    }
 }
 
 // --------------------------------------------------------------------- C11
